@@ -13,6 +13,12 @@ func main() {
 	if len(os.Args) > 1 && os.Args[1] == "check" {
 		os.Exit(checkMain(os.Args[2:]))
 	}
+	if len(os.Args) > 1 && os.Args[1] == "manifest" {
+		os.Exit(manifestMain())
+	}
+	if len(os.Args) > 1 && os.Args[1] == "replay" {
+		os.Exit(replayMain(os.Args[2:]))
+	}
 	repo := flag.String("repo", "/repo", "repository directory")
 	overlay := flag.String("overlay", "", "comma separated rel=src overlay files")
 	pkg := flag.String("pkg", "", "import path of the package containing the entry")
